@@ -17,6 +17,8 @@ def plan(tier, seed):
         for rg in (True, False):
             gs.append(Group('%s.forward[requires_grad=%s]' % (nm2, rg), S.g_scat_j2_forward, (rot, rg), functions=[(SLk, nm2 + '.forward')],
                             replay=rp('scat_forward', order=2)))
+        gs.append(Group('%s[combine_colour]' % nm2, S.g_scat_j2_colour, (rot,), functions=[(SLk, nm2 + '.forward')],
+                        replay=rp('scat_forward', order=2, colour=True, biort='near_sym_b_bp' if rot else 'near_sym_a')))
         for col in (False, True):
             gs.append(Group('ScatLayer[colour=%s,rot=%s]' % (col, rot), S.g_scat_module, (1, col, rot),
                             functions=[(LYk, 'ScatLayer.__init__'), (LYk, 'ScatLayer.forward')], replay=rp('scat_forward', order=1, colour=col)))
@@ -30,6 +32,7 @@ def plan(tier, seed):
                             functions=[(TFk, ('fwd_j1' if l1 else 'fwd_j2plus') + ('_rot' if rot else ''))]))
     gs.append(Group('canary:wrong-orientation-order', S.g_scat_j1, (False, False, True, True), canary=True))
     gs.append(Group('canary:j2-wrong-band', S.g_scat_j2_forward, (False, True, True), canary=True))
+    gs.append(Group('canary:j2-colour-wrong-band', S.g_scat_j2_colour, (False, True), canary=True))
     jobs = []
     for b in (['near_sym_a', 'near_sym_b'] + (['antonini', 'legall'] if dense else [])):
         jobs.append({'fn': 'scat_forward', 'cfg': {'order': 1, 'biort': b}, 'grid': {'H': [2, 8, 9, 15], 'W': [12, 7]}})
@@ -37,6 +40,8 @@ def plan(tier, seed):
         jobs.append({'fn': 'scat_forward', 'cfg': {'order': 2, 'biort': b, 'qshift': 'qshift_a' if b == 'near_sym_a' else 'qshift_b'},
                      'grid': {'H': [2, 3, 16, 13, 29], 'W': [24, 9]}})
     jobs.append({'fn': 'scat_forward', 'cfg': {'order': 2, 'colour': True}, 'grid': {'H': [16, 11], 'W': [17]}})
+    jobs.append({'fn': 'scat_forward', 'cfg': {'order': 2, 'colour': True, 'biort': 'near_sym_b_bp', 'qshift': 'qshift_b_bp'}, 'grid': {'H': [16], 'W': [17]}})
+    jobs.append({'fn': 'scat_forward', 'cfg': {'order': 2, 'magbias': 0.3}, 'grid': {'H': [16], 'W': [16]}})
     jobs.append({'fn': 'scat_forward', 'cfg': {'order': 1, 'magbias': 0.0}, 'grid': {'H': [8], 'W': [8]}})
     return {
         'groups': gs,
@@ -45,7 +50,7 @@ def plan(tier, seed):
         'assumptions': ASSUMPTIONS + DT_ASSUME + [
             'term mode: the DTCWT stages are replaced by contracts returning NAMED uninterpreted tensors (their equality with the reference is C03); sqrt is an uninterpreted function with '
             'the axioms sqrt(u) >= 0 and sqrt(u)^2 = u for u >= 0 instantiated at every occurrence',
-            'the colour-combining variant of the second-order layer and the band-pass (rot) second-order MODULE values are covered by the bounded tier only (shapes and non-negativity)',
+            'the band-pass (rot) second-order MODULE: the bounded tier checks shapes and non-negativity only (the reference package has no band-pass second-order transform to compare values with); its Function bodies are under contract',
             'size extension: proved that the first stage receives an image whose extents are the next multiple of 2 (8), containing the input as a block, every added sample being a copy of one of the 4 border rows/columns'],
         'explanation': 'the real forward bodies of ScatLayerj1_f, ScatLayerj1_rot_f, ScatLayerj2_f, ScatLayerj2_rot_f and the real ScatLayer / ScatLayerj2 __init__/forward are executed on z3 Real terms; '
                        'the output is compared, channel by channel (band-major, 7C / 49C), with pooled lowpass / sqrt(re^2+im^2+b^2)-b of the named stage outputs; non-negativity from the sqrt axioms',
